@@ -15,6 +15,16 @@
 
 use serde::{Deserialize, Deserializer, Serializer};
 
+/// Decode a hex string, refusing anything that is not ASCII first:
+/// `grin_util::from_hex` slices the string at byte offsets and panics
+/// inside a multi-byte character
+pub fn from_hex(hex: &str) -> Result<Vec<u8>, String> {
+	if !hex.is_ascii() {
+		return Err("hex string contains non-ASCII characters".to_owned());
+	}
+	crate::grin_util::from_hex(hex)
+}
+
 /// Seralizes a byte string into base64
 pub fn as_base64<T, S>(bytes: T, serializer: S) -> Result<S::Ok, S::Error>
 where
@@ -36,8 +46,10 @@ where
 
 /// Serializes an Option<secp::Signature> to and from hex
 pub mod option_rangeproof_hex {
+	use super::from_hex;
+	use crate::grin_util::secp::constants::MAX_PROOF_SIZE;
 	use crate::grin_util::secp::pedersen::RangeProof;
-	use crate::grin_util::{from_hex, ToHex};
+	use crate::grin_util::ToHex;
 	use serde::de::{Error, IntoDeserializer};
 	use serde::{Deserialize, Deserializer, Serializer};
 
@@ -60,7 +72,16 @@ pub mod option_rangeproof_hex {
 		Option::<String>::deserialize(deserializer).and_then(|res| match res {
 			Some(string) => from_hex(&string)
 				.map_err(|err| Error::custom(err.to_string()))
-				.and_then(|val| Ok(Some(RangeProof::deserialize(val.into_deserializer())?))),
+				.and_then(|val| {
+					if val.len() > MAX_PROOF_SIZE {
+						return Err(Error::custom(format!(
+							"invalid length {}, expected at most {} bytes",
+							val.len(),
+							MAX_PROOF_SIZE
+						)));
+					}
+					Ok(Some(RangeProof::deserialize(val.into_deserializer())?))
+				}),
 			None => Ok(None),
 		})
 	}
@@ -130,7 +151,8 @@ pub mod ov3_serde {
 
 /// Serializes an ed25519 PublicKey to and from hex
 pub mod dalek_seckey_serde {
-	use crate::grin_util::{from_hex, ToHex};
+	use super::from_hex;
+	use crate::grin_util::ToHex;
 	use ed25519_dalek::SecretKey as DalekSecretKey;
 	use serde::{Deserialize, Deserializer, Serializer};
 
@@ -158,7 +180,8 @@ pub mod dalek_seckey_serde {
 
 /// Serializes an ed25519 PublicKey to and from hex
 pub mod dalek_pubkey_serde {
-	use crate::grin_util::{from_hex, ToHex};
+	use super::from_hex;
+	use crate::grin_util::ToHex;
 	use ed25519_dalek::PublicKey as DalekPublicKey;
 	use serde::{Deserialize, Deserializer, Serializer};
 
@@ -186,7 +209,8 @@ pub mod dalek_pubkey_serde {
 
 /// Serializes an x25519 PublicKey to and from hex
 pub mod dalek_xpubkey_serde {
-	use crate::grin_util::{from_hex, ToHex};
+	use super::from_hex;
+	use crate::grin_util::ToHex;
 	use serde::{Deserialize, Deserializer, Serializer};
 	use x25519_dalek::PublicKey as xDalekPublicKey;
 
@@ -207,6 +231,12 @@ pub mod dalek_xpubkey_serde {
 		String::deserialize(deserializer)
 			.and_then(|string| from_hex(&string).map_err(|err| Error::custom(err.to_string())))
 			.and_then(|bytes: Vec<u8>| {
+				if bytes.len() < 32 {
+					return Err(Error::custom(format!(
+						"invalid length {}, expected 32 bytes",
+						bytes.len()
+					)));
+				}
 				let mut b = [0u8; 32];
 				b.copy_from_slice(&bytes[0..32]);
 				Ok(xDalekPublicKey::from(b))
@@ -271,6 +301,12 @@ pub mod option_dalek_pubkey_base64 {
 			Some(string) => base64::decode(&string)
 				.map_err(|err| Error::custom(err.to_string()))
 				.and_then(|bytes: Vec<u8>| {
+					if bytes.len() < 32 {
+						return Err(Error::custom(format!(
+							"invalid length {}, expected 32 bytes",
+							bytes.len()
+						)));
+					}
 					let mut b = [0u8; 32];
 					b.copy_from_slice(&bytes[0..32]);
 					DalekPublicKey::from_bytes(&b)
@@ -291,7 +327,8 @@ pub mod option_dalek_pubkey_serde {
 	use serde::de::Error;
 	use serde::{Deserialize, Deserializer, Serializer};
 
-	use crate::grin_util::{from_hex, ToHex};
+	use super::from_hex;
+	use crate::grin_util::ToHex;
 
 	///
 	pub fn serialize<S>(key: &Option<DalekPublicKey>, serializer: S) -> Result<S::Ok, S::Error>
@@ -313,6 +350,12 @@ pub mod option_dalek_pubkey_serde {
 			Some(string) => from_hex(&string)
 				.map_err(|err| Error::custom(err.to_string()))
 				.and_then(|bytes: Vec<u8>| {
+					if bytes.len() < 32 {
+						return Err(Error::custom(format!(
+							"invalid length {}, expected 32 bytes",
+							bytes.len()
+						)));
+					}
 					let mut b = [0u8; 32];
 					b.copy_from_slice(&bytes[0..32]);
 					DalekPublicKey::from_bytes(&b)
@@ -330,7 +373,8 @@ pub mod option_xdalek_pubkey_serde {
 	use serde::{Deserialize, Deserializer, Serializer};
 	use x25519_dalek::PublicKey as xDalekPublicKey;
 
-	use crate::grin_util::{from_hex, ToHex};
+	use super::from_hex;
+	use crate::grin_util::ToHex;
 
 	///
 	pub fn serialize<S>(key: &Option<xDalekPublicKey>, serializer: S) -> Result<S::Ok, S::Error>
@@ -352,6 +396,12 @@ pub mod option_xdalek_pubkey_serde {
 			Some(string) => from_hex(&string)
 				.map_err(|err| Error::custom(err.to_string()))
 				.and_then(|bytes: Vec<u8>| {
+					if bytes.len() < 32 {
+						return Err(Error::custom(format!(
+							"invalid length {}, expected 32 bytes",
+							bytes.len()
+						)));
+					}
 					let mut b = [0u8; 32];
 					b.copy_from_slice(&bytes[0..32]);
 					Ok(Some(xDalekPublicKey::from(b)))
@@ -368,7 +418,8 @@ pub mod dalek_sig_serde {
 	use serde::{Deserialize, Deserializer, Serializer};
 	use std::convert::TryFrom;
 
-	use crate::grin_util::{from_hex, ToHex};
+	use super::from_hex;
+	use crate::grin_util::ToHex;
 
 	///
 	pub fn serialize<S>(sig: &DalekSignature, serializer: S) -> Result<S::Ok, S::Error>
@@ -386,9 +437,15 @@ pub mod dalek_sig_serde {
 		String::deserialize(deserializer)
 			.and_then(|string| from_hex(&string).map_err(|err| Error::custom(err.to_string())))
 			.and_then(|bytes: Vec<u8>| {
+				if bytes.len() < 64 {
+					return Err(Error::custom(format!(
+						"invalid length {}, expected 64 bytes",
+						bytes.len()
+					)));
+				}
 				let mut b = [0u8; 64];
 				b.copy_from_slice(&bytes[0..64]);
-				DalekSignature::try_from(b).map_err(|err| Error::custom(err.to_string()))
+				DalekSignature::try_from(&b[..]).map_err(|err| Error::custom(err.to_string()))
 			})
 	}
 }
@@ -400,7 +457,8 @@ pub mod option_dalek_sig_serde {
 	use serde::{Deserialize, Deserializer, Serializer};
 	use std::convert::TryFrom;
 
-	use crate::grin_util::{from_hex, ToHex};
+	use super::from_hex;
+	use crate::grin_util::ToHex;
 
 	///
 	pub fn serialize<S>(sig: &Option<DalekSignature>, serializer: S) -> Result<S::Ok, S::Error>
@@ -422,9 +480,15 @@ pub mod option_dalek_sig_serde {
 			Some(string) => from_hex(&string)
 				.map_err(|err| Error::custom(err.to_string()))
 				.and_then(|bytes: Vec<u8>| {
+					if bytes.len() < 64 {
+						return Err(Error::custom(format!(
+							"invalid length {}, expected 64 bytes",
+							bytes.len()
+						)));
+					}
 					let mut b = [0u8; 64];
 					b.copy_from_slice(&bytes[0..64]);
-					DalekSignature::try_from(b)
+					DalekSignature::try_from(&b[..])
 						.map(Some)
 						.map_err(|err| Error::custom(err.to_string()))
 				}),
@@ -461,9 +525,15 @@ pub mod option_dalek_sig_base64 {
 			Some(string) => base64::decode(&string)
 				.map_err(|err| Error::custom(err.to_string()))
 				.and_then(|bytes: Vec<u8>| {
+					if bytes.len() < 64 {
+						return Err(Error::custom(format!(
+							"invalid length {}, expected 64 bytes",
+							bytes.len()
+						)));
+					}
 					let mut b = [0u8; 64];
 					b.copy_from_slice(&bytes[0..64]);
-					DalekSignature::try_from(b)
+					DalekSignature::try_from(&b[..])
 						.map(Some)
 						.map_err(|err| Error::custom(err.to_string()))
 				}),
@@ -584,6 +654,12 @@ pub mod uuid_base64 {
 				base64::decode(&string).map_err(|err| Error::custom(err.to_string()))
 			})
 			.and_then(|bytes: Vec<u8>| {
+				if bytes.len() < 16 {
+					return Err(Error::custom(format!(
+						"invalid length {}, expected 16 bytes",
+						bytes.len()
+					)));
+				}
 				let mut b = [0u8; 16];
 				b.copy_from_slice(&bytes[0..16]);
 				Ok(Uuid::from_bytes(b))
